@@ -222,6 +222,8 @@ struct Doc {
     body: String,
     root: bool,
     author: usize,
+    /// attributes of the root element itself (classes, id), with a leading blank
+    root_attrs: String,
 }
 
 const AUTHOR: &[&str] = &[
@@ -234,7 +236,11 @@ const AUTHOR: &[&str] = &[
 fn document(d: &Doc) -> String {
     let inner = format!("{}{}", AUTHOR[d.author], d.body);
     if d.root {
-        format!("<svg>{inner}</svg>")
+        if inner.is_empty() {
+            format!("<svg{}/>", d.root_attrs)
+        } else {
+            format!("<svg{}>{inner}</svg>", d.root_attrs)
+        }
     } else {
         inner
     }
@@ -274,6 +280,9 @@ fn check_doc(d: &Doc, cfg: &Cfg, cfg_name: &str, sig_class: &str) -> CaseResult 
                 if AUTHOR[d.author].is_empty() && (t.contains("<style") || t.contains("<defs")) {
                     mk("injected-without-root-or-when-disabled", clip(&t, 300));
                 }
+                if d.root && !d.root_attrs.contains("id=") && t.contains(" id=\"svgdx-") {
+                    mk("injected-without-root-or-when-disabled", format!("a generated id on the root although nothing is injected: {}", clip(&t, 200)));
+                }
             } else {
                 let (ta, tb) = (xmlref::parse_tree(a, Mode::Document), xmlref::parse_tree(b, Mode::Document));
                 match (ta, tb) {
@@ -286,6 +295,22 @@ fn check_doc(d: &Doc, cfg: &Cfg, cfg_name: &str, sig_class: &str) -> CaseResult 
                                     mk("author-content-changed", format!("{doc}\nwith auto-styles the document content differs from the content without:\n{}\nvs\n{}", clip(&String::from_utf8_lossy(a), 500), clip(&String::from_utf8_lossy(b), 300)));
                                 }
                                 let mut used = BTreeSet::new();
+                                // the root element is an output element too
+                                for c in ra.classes() {
+                                    if c.starts_with("d-") {
+                                        used.insert(("svg".to_string(), c.to_string()));
+                                    }
+                                }
+                                if cfg.use_local_styles {
+                                    // local styles are scoped to an id: it must be the root element's
+                                    let text = String::from_utf8_lossy(a);
+                                    if let Some(pos) = text.find("svg#") {
+                                        let scope: String = text[pos + 4..].chars().take_while(|c| !c.is_whitespace() && *c != '{').collect();
+                                        if ra.attr("id") != Some(scope.as_str()) {
+                                            mk("local-style-scope-is-not-the-root-id", format!("{doc}\nrules are scoped to #{scope} but the root element has id {:?}", ra.attr("id")));
+                                        }
+                                    }
+                                }
                                 for n in &inj.rest {
                                     if let Node::El(e) = n {
                                         collect_used(e, &mut used);
@@ -361,10 +386,10 @@ pub fn run(tier: Tier) -> i32 {
                 if tier == Tier::Quick && (ci + which + k) % 5 != 0 && !FAMILY_REPS.contains(&c.as_str()) {
                     continue;
                 }
-                docs.push((Doc { body: carrier(c, which), root: true, author: (ci + which) % AUTHOR.len() }, k, format!("single/{c}")));
+                docs.push((Doc { body: carrier(c, which), root: true, author: (ci + which) % AUTHOR.len(), root_attrs: String::new() }, k, format!("single/{c}")));
             }
         }
-        docs.push((Doc { body: carrier(c, ci % 5), root: false, author: 0 }, 0, format!("fragment/{c}")));
+        docs.push((Doc { body: carrier(c, ci % 5), root: false, author: 0, root_attrs: String::new() }, 0, format!("fragment/{c}")));
     }
     // all pairs and triples of family representatives (1 771 subsets)
     let n = FAMILY_REPS.len();
@@ -385,12 +410,25 @@ pub fn run(tier: Tier) -> i32 {
             if (tier == Tier::Quick && (si + k) % 4 != 0) || (k > 5 && si % 3 != 0) {
                 continue;
             }
-            docs.push((Doc { body: body.clone(), root: true, author: si % AUTHOR.len() }, k, format!("subset/{}", classes.join("+"))));
+            docs.push((Doc { body: body.clone(), root: true, author: si % AUTHOR.len(), root_attrs: String::new() }, k, format!("subset/{}", classes.join("+"))));
         }
     }
+    // classes on the root element itself (with content, and as an empty root)
+    for (ci, c) in vocab.iter().enumerate() {
+        if FAMILY_REPS.contains(&c.as_str()) || ci % 7 == 0 {
+            docs.push((Doc { body: "<rect wh=\"5\"/>".into(), root: true, author: ci % AUTHOR.len(), root_attrs: format!(" class=\"{c}\"") }, ci % cfgs.len(), format!("root-class/{c}")));
+            docs.push((Doc { body: String::new(), root: true, author: 0, root_attrs: format!(" class=\"{c} other\"") }, 0, format!("empty-root-class/{c}")));
+        }
+    }
+    // local styles with an author-supplied id on the root: the scope must be an id the output has
+    for c in FAMILY_REPS.iter().take(6) {
+        docs.push((Doc { body: carrier(c, 2), root: true, author: 0, root_attrs: " id=\"mine\"".into() }, usize::MAX, format!("local-author-id/{c}")));
+    }
+    // local styles requested but auto-styles off: nothing at all is injected, not even an id
+    docs.push((Doc { body: carrier("d-red", 0), root: true, author: 0, root_attrs: String::new() }, usize::MAX - 1, "local-but-disabled".into()));
     // local styles (random root id): closure must still hold
     for c in FAMILY_REPS {
-        docs.push((Doc { body: carrier(c, 2), root: true, author: 0 }, usize::MAX, format!("local/{c}")));
+        docs.push((Doc { body: carrier(c, 2), root: true, author: 0, root_attrs: String::new() }, usize::MAX, format!("local/{c}")));
     }
     let local = Cfg { use_local_styles: true, ..Cfg::default() };
     rep.set("rule", json!(format!("Reserved vocabulary of {} classes: 148 colour keywords x {{d-, d-fill-, d-text-, d-text-ol-}}, 28 text alignment/weight/size/outline classes, stroke widths, arrows, flow/dash classes, 6 pattern families plain and with suffixes {{1, 5, 100, 101, 05, x, 5x}}, shadows, surround, plus non-rule classes (d-text-outside, d-inside, d-nonsense). (documents) every single class x 5 carriers (rect, line, rect with text, text, group with path) x 10 configurations (6 themes, background, font, debug, auto-styles off) x 4 author <style>/<defs> variants, each class also in a fragment; all pairs and triples of 22 family representatives (1 771 subsets) spread over two carriers; local styles. Each document is run with auto-styles on and off: the content after the injected blocks must equal the off-output (author style/defs intact; nothing injected for fragments / when disabled), every url(#id) in an emitted rule or definition is defined exactly once, every rule naming a d- class has that class on an output element, every definition is referenced, and every reserved class on an element its rule can apply to has a rule. (probe) the same oracle on the theme builder directly for every single class and every pair of the vocabulary x element sets x 6 themes. Non-trivial = rules were injected and all clauses hold.", vocab.len())));
@@ -398,6 +436,8 @@ pub fn run(tier: Tier) -> i32 {
         let (d, k, sig) = &docs[i];
         if *k == usize::MAX {
             check_doc(d, &local, "local-styles", sig)
+        } else if *k == usize::MAX - 1 {
+            check_doc(d, &Cfg { add_auto_styles: false, ..local.clone() }, "local-styles-disabled", sig)
         } else {
             check_doc(d, &cfgs[*k].1, cfgs[*k].0, sig)
         }
@@ -489,7 +529,7 @@ pub fn replay_case(case: &Value) -> Option<Violation> {
             let cfg = Cfg::from_json(&case["config"]);
             let root = doc.starts_with("<svg>");
             let body = if root { doc.strip_prefix("<svg>")?.strip_suffix("</svg>")?.to_string() } else { doc.to_string() };
-            check_doc(&Doc { body, root, author: 0 }, &cfg, "replay", "replay").violation
+            check_doc(&Doc { body, root, author: 0, root_attrs: String::new() }, &cfg, "replay", "replay").violation
         }
         _ => Some(Violation { clause: "replay".into(), signature: "C20/replay".into(), case: case.clone(), detail: "probe cases are replayed by re-running the check".into() }),
     }
